@@ -36,14 +36,28 @@ def rewrites(case, data):
             frag_tag = ('u', 3) if isbits else ('u', 4)
             if isbits and not content:
                 continue
+            label = 'segmented-' + ('bits' if isbits else 'str%s' % (b[1] if b else n['tag'][1]))
             if isbits:
-                frags = [content] if len(content) < 3 else [b'\x00' + content[1:2], content[:1] + content[2:]]
+                splits = [[content]] if len(content) < 3 else [[b'\x00' + content[1:2], content[:1] + content[2:]], [content]]
             else:
-                frags = [content] if len(content) < 2 else [content[:1], content[1:]]
+                splits = [[content]]
+                if len(content) >= 2:
+                    splits.append([content[:1], content[1:]])
+                if len(content) >= 3:
+                    splits.append([content[:1], content[1:2], content[2:]])
+                if not content:
+                    splits.append([])          # zero segments (X.690 8.7.3.2) — still the empty string
+                    splits.append([b'', b''])
             saved = (n['cons'], n.get('content'))
-            n['cons'] = True
-            n['children'] = [{'tag': frag_tag, 'cons': False, 'content': f} for f in frags]
-            yield 'segmented-' + ('bits' if isbits else 'str%s' % (b[1] if b else n['tag'][1])), wire.emit(root), depth
+            for frags in splits:
+                n['cons'] = True
+                n['children'] = [{'tag': frag_tag, 'cons': False, 'content': f} for f in frags]
+                yield label + '-%d' % len(frags), wire.emit(root), depth
+            if not isbits and len(content) >= 2:
+                # nested constructed segment
+                n['children'] = [{'tag': frag_tag, 'cons': True, 'children': [{'tag': frag_tag, 'cons': False, 'content': content[:1]}]},
+                                 {'tag': frag_tag, 'cons': False, 'content': content[1:]}]
+                yield label + '-nested', wire.emit(root), depth
             n['cons'] = saved[0]
             del n['children']
         # (c) TRUE as a non-FF octet
